@@ -89,6 +89,8 @@ type workerOut struct {
 	Runs       int            `json:"runs"`
 	Nontrivial int            `json:"nontrivial"`
 	Sigs       []uint64       `json:"sigs"`
+	SigW       []int          `json:"sig_w"`
+	Evals      int            `json:"evals"`
 	Steps      int64          `json:"steps"`
 	SimNs      int64          `json:"sim_ns"`
 	Faults     map[string]int `json:"faults"`
@@ -278,9 +280,17 @@ func matchKnown(ks []knownFinding, prop, family string, r *replayFile) *knownFin
 type famResult struct {
 	desc     famDesc
 	agg      workerOut
-	sigs     map[uint64]struct{}
+	sigs     map[uint64]int
 	wall     float64
 	failures []failure
+}
+
+func (fr *famResult) distinct() int {
+	n := 0
+	for _, w := range fr.sigs {
+		n += w
+	}
+	return n
 }
 
 func main() {
@@ -427,7 +437,7 @@ func check(bin, dir, prop, tier string, base uint64, workers int, scale float64,
 	writeEvidence(prop, tier, base, results, time.Since(t0).Seconds(), totalViol)
 	for _, fr := range results {
 		fmt.Printf("%s/%s: runs=%d nontrivial=%d distinct=%d steps=%d sim=%.0fs wall=%.1fs aborts=%v failures=%d\n", prop, fr.desc.Name,
-			fr.agg.Runs, fr.agg.Nontrivial, len(fr.sigs), fr.agg.Steps, float64(fr.agg.SimNs)/1e9, fr.wall, fr.agg.Aborts, len(fr.failures))
+			fr.agg.Runs, fr.agg.Nontrivial, fr.distinct(), fr.agg.Steps, float64(fr.agg.SimNs)/1e9, fr.wall, fr.agg.Aborts, len(fr.failures))
 		fmt.Printf("  probes=%v faults=%v\n", fr.agg.Probes, fr.agg.Faults)
 		if len(fr.failures) > 0 {
 			cl := map[string]int{}
@@ -483,7 +493,7 @@ func runFamily(bin, dir, prop, tier string, base uint64, workers int, scale floa
 		}
 		spans = append(spans, span{uint64(s), uint64(c)})
 	}
-	fr := &famResult{desc: d, sigs: map[uint64]struct{}{}}
+	fr := &famResult{desc: d, sigs: map[uint64]int{}}
 	fr.agg.Faults, fr.agg.Probes, fr.agg.States, fr.agg.Aborts = map[string]int{}, map[string]int{}, map[string]int{}, map[string]int{}
 	t0 := time.Now()
 	deadline := t0.Add(time.Duration(wallCap * float64(time.Second)))
@@ -516,8 +526,13 @@ func runFamily(bin, dir, prop, tier string, base uint64, workers int, scale floa
 				fr.agg.Nontrivial += wo.Nontrivial
 				fr.agg.Steps += wo.Steps
 				fr.agg.SimNs += wo.SimNs
-				for _, s := range wo.Sigs {
-					fr.sigs[s] = struct{}{}
+				fr.agg.Evals += wo.Evals
+				for i, s := range wo.Sigs {
+					wgt := 1
+					if i < len(wo.SigW) {
+						wgt = wo.SigW[i]
+					}
+					fr.sigs[s] = wgt
 				}
 				for k, v := range wo.Faults {
 					fr.agg.Faults[k] += v
@@ -597,6 +612,7 @@ func writeEvidence(prop, tier string, base uint64, results []*famResult, wall fl
 	type famEv struct {
 		Family      string         `json:"family"`
 		Runs        int            `json:"runs"`
+		Executions  int            `json:"executions"`
 		Nontrivial  int            `json:"nontrivial_runs"`
 		Distinct    int            `json:"distinct_nontrivial"`
 		Steps       int64          `json:"scheduler_steps"`
@@ -622,13 +638,13 @@ func writeEvidence(prop, tier string, base uint64, results []*famResult, wall fl
 		if fr.desc.Level == "fault_enumeration" {
 			level = "fault_enumeration"
 		}
-		evals += fr.agg.Runs
-		distinct += len(fr.sigs)
+		evals += fr.agg.Evals
+		distinct += fr.distinct()
 		rph := 0.0
 		if fr.wall > 0 {
 			rph = float64(fr.agg.Runs) / fr.wall * 3600
 		}
-		fams = append(fams, famEv{fr.desc.Name, fr.agg.Runs, fr.agg.Nontrivial, len(fr.sigs), fr.agg.Steps, float64(fr.agg.SimNs) / 1e9, rph,
+		fams = append(fams, famEv{fr.desc.Name, fr.agg.Runs, fr.agg.Evals, fr.agg.Nontrivial, fr.distinct(), fr.agg.Steps, float64(fr.agg.SimNs) / 1e9, rph,
 			fr.agg.Faults, fr.agg.Probes, fr.agg.States, fr.agg.Aborts, fr.desc.Real, fr.desc.Stub, fr.desc.Rule, len(fr.failures), fr.wall})
 		for _, s := range fr.agg.Samples {
 			samples = append(samples, map[string]interface{}{"family": fr.desc.Name, "run_seed": s.Seed, "steps": s.Steps, "preemptions": s.Preempt, "event_log": s.Trace})
